@@ -99,6 +99,27 @@ def db_order_independent(chk, prog):
                "does not keep it sorted: after that call an existing user can be missed by uid (invalidate_user_session / remove_user do nothing, the token stays valid)",
                where=b.where(blk))
 
+
+def no_text_slicing(chk, prog):
+    """R9.text_slices: tokens, user ids and passwords are client-chosen text.  Every index / slice of a str or slice in the auth crate must
+    be dischargeable (a position taken from the same string's char_indices / find, a constant range under a length guard): a byte-position
+    slice of a presented token panics on a multi-byte character — inside `with_auth_route` while the provider's mutex is held, which
+    poisons it for every later request — instead of yielding InvalidToken."""
+    n_b = n_s = 0
+    for p_, b in sorted(prog.bodies.items()):
+        if not (p_.startswith("humphrey_auth::") or p_.startswith("<humphrey_auth::") or " as humphrey_auth::" in p_) or "promoted" in p_:
+            continue
+        n_b += 1
+        for st_ in panics.sites_of(prog, b):
+            if not (st_.kind.startswith("call:index") or (st_.kind == "assert" and st_.what == "bounds")):
+                continue
+            n_s += 1
+            how, why = panics.try_discharge(prog, st_)
+            chk.ob("R9.text_slices", p_, f"{st_.kind} {panics.short_desc(st_.operands[0]) if st_.operands else ''}[..] cannot panic", how is not None,
+                   f"an index / slice of client-chosen text can panic ({why or 'no discharge idiom applies'}): a token with a multi-byte character where a byte position is assumed "
+                   "takes the handler down (and poisons the provider's lock) instead of being rejected", where=st_.where())
+    chk.ob("R9.text_slices", "humphrey_auth", "auth-crate bodies scanned for index / slice sites", n_b >= 20, f"{n_b} bodies, {n_s} site(s)")
+
 def run(chk):
     prog = chk.use(core.load("A", fresh=(chk.tier == "thorough")))
     chk.explanation = (
@@ -363,6 +384,7 @@ def run(chk):
                f"valid() computes {panics.short_desc(d)}: a session created with lifetime 0 must be born expired")
     db_lookup(chk, prog)
     db_order_independent(chk, prog)
+    no_text_slicing(chk, prog)
     unknown_uid(chk, prog)
     refresh_persisted(chk, prog)
     whole_password_and_expiry(chk, prog)
